@@ -31,111 +31,122 @@ inductive J where
 
 def isWs (c : Char) : Bool := c == ' ' || c == '\n' || c == '\t' || c == '\r'
 
-def skipWs : List Char → List Char
-  | c :: cs => if isWs c then skipWs cs else c :: cs
-  | [] => []
+/-- The document as an array of characters; every parser takes and returns an index into it
+(positions make the raw text of a member a slice, linear in its own size). -/
+abbrev Src := Array Char
 
-def hex4 : List Char → Option (Nat × List Char)
-  | a :: b :: c :: d :: rest =>
-    match hexVal a, hexVal b, hexVal c, hexVal d with
-    | some w, some x, some y, some z => some (((w * 16 + x) * 16 + y) * 16 + z, rest)
+def Src.at (a : Src) (i : Nat) : Char := a.getD i (Char.ofNat 0)
+
+partial def skipWs (a : Src) (i : Nat) : Nat :=
+  if i < a.size && isWs (a.at i) then skipWs a (i + 1) else i
+
+def hex4 (a : Src) (i : Nat) : Option Nat :=
+  if i + 4 ≤ a.size then
+    match hexVal (a.at i), hexVal (a.at (i + 1)), hexVal (a.at (i + 2)), hexVal (a.at (i + 3)) with
+    | some w, some x, some y, some z => some (((w * 16 + x) * 16 + y) * 16 + z)
     | _, _, _, _ => none
-  | _ => none
+  else none
 
-partial def parseStr (cs : List Char) (acc : List Char) : Option (String × List Char) :=
-  match cs with
-  | [] => none
-  | '"' :: rest => some (String.ofList acc.reverse, rest)
-  | '\\' :: e :: rest =>
-    match e with
-    | '"' => parseStr rest ('"' :: acc)
-    | '\\' => parseStr rest ('\\' :: acc)
-    | '/' => parseStr rest ('/' :: acc)
-    | 'b' => parseStr rest (Char.ofNat 8 :: acc)
-    | 'f' => parseStr rest (Char.ofNat 12 :: acc)
-    | 'n' => parseStr rest ('\n' :: acc)
-    | 'r' => parseStr rest ('\r' :: acc)
-    | 't' => parseStr rest ('\t' :: acc)
-    | 'u' =>
-      match hex4 rest with
-      | some (n, rest') =>
+/-- After the opening quote; returns the string and the index after the closing quote. -/
+partial def parseStr (a : Src) (i : Nat) (acc : List Char) : Option (String × Nat) :=
+  if i ≥ a.size then none else
+  let c := a.at i
+  if c == '"' then some (String.ofList acc.reverse, i + 1)
+  else if c == '\\' then
+    if i + 1 ≥ a.size then none else
+    let e := a.at (i + 1)
+    if e == '"' then parseStr a (i + 2) ('"' :: acc)
+    else if e == '\\' then parseStr a (i + 2) ('\\' :: acc)
+    else if e == '/' then parseStr a (i + 2) ('/' :: acc)
+    else if e == 'b' then parseStr a (i + 2) (Char.ofNat 8 :: acc)
+    else if e == 'f' then parseStr a (i + 2) (Char.ofNat 12 :: acc)
+    else if e == 'n' then parseStr a (i + 2) ('\n' :: acc)
+    else if e == 'r' then parseStr a (i + 2) ('\r' :: acc)
+    else if e == 't' then parseStr a (i + 2) ('\t' :: acc)
+    else if e == 'u' then
+      match hex4 a (i + 2) with
+      | none => none
+      | some n =>
         if 0xD800 ≤ n ∧ n < 0xDC00 then
-          match rest' with
-          | '\\' :: 'u' :: r2 =>
-            match hex4 r2 with
-            | some (m, r3) =>
+          if a.at (i + 6) == '\\' && a.at (i + 7) == 'u' then
+            match hex4 a (i + 8) with
+            | some m =>
               if 0xDC00 ≤ m ∧ m < 0xE000 then
-                parseStr r3 (Char.ofNat (0x10000 + (n - 0xD800) * 1024 + (m - 0xDC00)) :: acc)
+                parseStr a (i + 12) (Char.ofNat (0x10000 + (n - 0xD800) * 1024 + (m - 0xDC00)) :: acc)
               else none
             | none => none
-          | _ => none
-        else parseStr rest' (Char.ofNat n :: acc)
-      | none => none
-    | _ => none
-  | c :: rest => if c.toNat < 0x20 then none else parseStr rest (c :: acc)
+          else none
+        else parseStr a (i + 6) (Char.ofNat n :: acc)
+    else none
+  else if c.toNat < 0x20 then none
+  else parseStr a (i + 1) (c :: acc)
 
 def isNumChar (c : Char) : Bool :=
   ('0' ≤ c && c ≤ '9') || c == '-' || c == '+' || c == '.' || c == 'e' || c == 'E'
 
-def rawOf (before after : List Char) : String :=
-  String.ofList (before.take (before.length - after.length))
+partial def numEnd (a : Src) (i : Nat) : Nat :=
+  if i < a.size && isNumChar (a.at i) then numEnd a (i + 1) else i
+
+def slice (a : Src) (i j : Nat) : String := String.ofList (a.extract i j).toList
+
+def litAt (a : Src) (i : Nat) (lit : String) : Bool :=
+  let cs := lit.toList
+  i + cs.length ≤ a.size && (List.range cs.length).all (fun k => a.at (i + k) == cs.getD k ' ')
 
 mutual
-partial def parseVal (cs0 : List Char) : Option (J × List Char) :=
-  let cs := skipWs cs0
-  match cs with
-  | 'n' :: 'u' :: 'l' :: 'l' :: rest => some (.null, rest)
-  | 't' :: 'r' :: 'u' :: 'e' :: rest => some (.bool true, rest)
-  | 'f' :: 'a' :: 'l' :: 's' :: 'e' :: rest => some (.bool false, rest)
-  | '"' :: rest => (parseStr rest []).map (fun (s, r) => (.str s, r))
-  | '[' :: rest =>
-    match skipWs rest with
-    | ']' :: r => some (.arr [], r)
-    | r => parseElems r []
-  | '{' :: rest =>
-    match skipWs rest with
-    | '}' :: r => some (.obj [], r)
-    | r => parseMembers r []
-  | c :: _ =>
-    if c == '-' || ('0' ≤ c && c ≤ '9') then
-      let lit := cs.takeWhile isNumChar
-      some (.num (String.ofList lit), cs.drop lit.length)
-    else none
-  | [] => none
+partial def parseVal (a : Src) (i0 : Nat) : Option (J × Nat) :=
+  let i := skipWs a i0
+  if i ≥ a.size then none else
+  let c := a.at i
+  if litAt a i "null" then some (.null, i + 4)
+  else if litAt a i "true" then some (.bool true, i + 4)
+  else if litAt a i "false" then some (.bool false, i + 5)
+  else if c == '"' then (parseStr a (i + 1) []).map (fun (s, j) => (.str s, j))
+  else if c == '[' then
+    let j := skipWs a (i + 1)
+    if a.at j == ']' && j < a.size then some (.arr [], j + 1) else parseElems a j []
+  else if c == '{' then
+    let j := skipWs a (i + 1)
+    if a.at j == '}' && j < a.size then some (.obj [], j + 1) else parseMembers a j []
+  else if c == '-' || ('0' ≤ c && c ≤ '9') then
+    let j := numEnd a i
+    some (.num (slice a i j), j)
+  else none
 
-partial def parseElems (cs : List Char) (acc : List J) : Option (J × List Char) :=
-  match parseVal cs with
+partial def parseElems (a : Src) (i : Nat) (acc : List J) : Option (J × Nat) :=
+  match parseVal a i with
   | none => none
-  | some (v, rest) =>
-    match skipWs rest with
-    | ',' :: r => parseElems r (v :: acc)
-    | ']' :: r => some (.arr (v :: acc).reverse, r)
-    | _ => none
+  | some (v, j) =>
+    let k := skipWs a j
+    if k ≥ a.size then none
+    else if a.at k == ',' then parseElems a (k + 1) (v :: acc)
+    else if a.at k == ']' then some (.arr (v :: acc).reverse, k + 1)
+    else none
 
-partial def parseMembers (cs : List Char) (acc : List (String × J × String)) : Option (J × List Char) :=
-  match skipWs cs with
-  | '"' :: rest =>
-    match parseStr rest [] with
+partial def parseMembers (a : Src) (i : Nat) (acc : List (String × J × String)) : Option (J × Nat) :=
+  let i := skipWs a i
+  if i ≥ a.size || a.at i != '"' then none else
+  match parseStr a (i + 1) [] with
+  | none => none
+  | some (k, j) =>
+    let j := skipWs a j
+    if j ≥ a.size || a.at j != ':' then none else
+    let v0 := skipWs a (j + 1)
+    match parseVal a v0 with
     | none => none
-    | some (k, r1) =>
-      match skipWs r1 with
-      | ':' :: r2 =>
-        let r2 := skipWs r2
-        match parseVal r2 with
-        | none => none
-        | some (v, r3) =>
-          let raw := rawOf r2 r3
-          match skipWs r3 with
-          | ',' :: r4 => parseMembers r4 ((k, v, raw) :: acc)
-          | '}' :: r4 => some (.obj ((k, v, raw) :: acc).reverse, r4)
-          | _ => none
-      | _ => none
-  | _ => none
+    | some (v, v1) =>
+      let raw := slice a v0 v1
+      let n := skipWs a v1
+      if n ≥ a.size then none
+      else if a.at n == ',' then parseMembers a (n + 1) ((k, v, raw) :: acc)
+      else if a.at n == '}' then some (.obj ((k, v, raw) :: acc).reverse, n + 1)
+      else none
 end
 
 def parseJson (s : String) : Option J :=
-  match parseVal s.toList with
-  | some (v, rest) => if (skipWs rest).isEmpty then some v else none
+  let a : Src := s.toList.toArray
+  match parseVal a 0 with
+  | some (v, j) => if skipWs a j ≥ a.size then some v else none
   | none => none
 
 /-! ### BackendServerRoomRequest as the easyjson decoder builds it
@@ -362,9 +373,10 @@ def parseObserved : List String → Option Observed
         events := if evs = "-" then [] else evs.splitOn ",", digest := dg }
   | _ => none
 
+/-- Without a `setup` op (a shrunk case) both sides start from `setup 0 100 none`. -/
 structure St where
-  world : World := { roomId := "" }
-  judge : Judge := {}
+  world : World := mkWorld 0 "100" .noClient
+  judge : Judge := { lastDigest := digest (mkWorld 0 "100" .noClient) }
 
 def bodyOf (bytes : List UInt8) (decoded : Option Body) : Option Body :=
   if bytes.length > genCfg.maxBodySize then some .tooLarge else decoded
